@@ -16,4 +16,8 @@ CLAIMED = {
    text="Generated projects with sub-slot efforts, mid-slot predecessors, milestones, ASAP/ALAP; each scheduled task's reported [start,end] is compared with its first/last booked slot and the seconds booked there (tightness and containment, 1 s rounding), milestones with the dependency bound recomputed from the model.",
    note="Trusts ledger + reported dates extraction; milestone bound judged for forward milestones with all predecessors scheduled.",
    technique="property-based testing (Hypothesis) with a validity predicate relating reported dates to the ledger"),
+ "C04": dict(
+   text="Generated nested task trees with DAGs over leaves and containers (own/inherited/precedes edges, relative and absolute references, min/h/d/w gaps, on-start, sub-slot efforts, dated containers, forward projects and backward projects shaped as the statement allows); every edge re-derived from the model is checked against the reported dates of scheduled, unpinned leaf tasks.",
+   note="Trusts the renderer's reference spelling (true targets are kept in the model); unscheduled tasks, gaplength, on-start edges in backward mode and mode mixing are not judged (statement). Cyclic inputs are excluded by construction at leaf level.",
+   technique="property-based testing (Hypothesis) with edges re-derived from the generating model"),
 }
